@@ -147,8 +147,8 @@ def run(rep, tier, root=None):
     I = Interp(ix)
     rets = I.returns(f, [data, n])
     want = Interp(ix).returns(ix.func(om.name, "block_sums"), [data, n])[0][1]
-    if len(rets) != 2:
-        rep.unknown("B1.block-sums", f.fq, "expected a 2-D and an N-D path, found %d" % len(rets), f.where())
+    if not rets:
+        rep.unknown("B1.block-sums", f.fq, "no returning path", f.where())
     for conds, v in rets:
         tag = "%s[%s]" % (f.fq, "; ".join(conds))
         if v is None or has_unknown(v):
@@ -160,7 +160,7 @@ def run(rep, tier, root=None):
     divs = [(s[2], s[3], s[4]) for s in I.store_log if s[0] == f.fq and s[5] == "Div"]
     axes = [int(complex(i.const_value()).real) for i, v, l in divs if isinstance(i, Rat) and i.is_const()]
     nn = Rat.atom(Fn("int", (Rat.atom(Fn("round", (n,))),)))
-    rep.check(axes == [-1, -2, -1, -2] and all(same_value(v, nn) for i, v, l in divs), "B1.shapes",
+    rep.check(len(axes) >= 2 and axes == [-1, -2] * (len(axes) // 2) and all(same_value(v, nn) for i, v, l in divs), "B1.shapes",
               f.fq + ": temporaries shrink axis -1 then axis -2 by n (both branches)",
               "shape updates: %s" % [(nf(i), nf(v)) for i, v, l in divs], f.where())
     rep.sample({"function": f.fq, "normal_form": nf(rets[0][1], 300) if rets else ""})
@@ -172,11 +172,13 @@ def run(rep, tier, root=None):
         rep.functions_analysed.add(g.fq)
         # B2: library constructors reached
         ctors = set()
-        for node in ast.walk(g.node):
-            if isinstance(node, ast.Call):
-                b = ix.resolve_call(g, node)
-                if b is not None and b.kind == "ext" and b.target.startswith("scipy."):
-                    ctors.add(b.target)
+        from ..common import reachable_functions
+        for g_ in reachable_functions(ix, [g]):          # the entry point and the repository helpers it calls
+            for node in ast.walk(g_.node):
+                if isinstance(node, ast.Call):
+                    b = ix.resolve_call(g_, node)
+                    if b is not None and b.kind == "ext" and b.target.startswith("scipy."):
+                        ctors.add(b.target)
         if not ctors:
             rep.unknown("B2.callable", g.fq, "no SciPy constructor found", g.where())
         for d in sorted(ctors):
@@ -333,7 +335,16 @@ def run(rep, tier, root=None):
                 npt = None
                 for a in find_atoms(xs, lambda q: isinstance(q, Fn) and q.name == "linspace"):
                     npt = a.args[2]
-                okc, why = coverage(st5[0][2], lp5[0][2].single_atom(), lp5[0][3], npt) if npt is not None else (None, "no linspace count")
+                lv5, rg5 = lp5[0][2], lp5[0][3]
+                if isinstance(lv5, tuple) and isinstance(rg5, tuple) and rg5 and rg5[0] == "enumerate":
+                    # for i, r in enumerate(radii): i runs over range(len(radii))
+                    lins = find_atoms(rg5[1], lambda q: isinstance(q, Fn) and q.name == "linspace") if isinstance(rg5[1], (Rat, tuple)) else []
+                    lv5 = lv5[0]
+                    rg5 = RangeVal(Rat.const(0), lins[0].args[2], Rat.const(1)) if len(lins) == 1 else None
+                if not isinstance(lv5, Rat) or not isinstance(rg5, RangeVal):
+                    okc, why = None, "loop over the radii is neither a range nor an enumerate of them"
+                else:
+                    okc, why = coverage(st5[0][2], lv5.single_atom(), rg5, npt) if npt is not None else (None, "no linspace count")
                 if okc is None:
                     rep.unknown("B5.allocation-coverage", k.fq, why, k.where())
                 else:
